@@ -37,9 +37,13 @@ TRANSLATE_FALLBACK = (
     "the stage transitions decide what ExpectProxyProtocol does on the generated header splits (chunks cut at the "
     "16/28/52/232 edges, oversized and malformed headers) that driver and model both run; signature, family bytes and "
     "block lengths decide the `enc` / `parse` observations on every header kind and every truncation point, checked "
-    "against a reference reading of the wire format in the driver; the handler order of ready_inner, its fall-through "
-    "after front_hup and the expect-mode connect guard decide the black-box scenarios that run in every tier (real "
-    "worker, four modes, half-closes, back-pressure); unreadable windows are generated from props/c18_facts.json")
+    "against a reference reading of the wire format in the driver; the fall-through of ready_inner after front_hup "
+    "and its expect-mode connect guard decide the black-box scenarios that run in every tier (real worker, four modes, "
+    "client FIN with bytes pending, expect-mode connection); unreadable windows are generated from "
+    "props/c18_facts.json.  NOT soft (nothing observes them, the driver replicates the loop): the order of the six "
+    "handlers in ready_inner, their readiness guards and the two ERROR arms -- any difference there fails the check.  "
+    "Every soft pin has a probe harmless/C18_*_unreadable_changed (the fact changed in a spelling the translator "
+    "cannot read) that the check must answer with exit 1")
 
 FACTS = os.path.join(os.path.dirname(os.path.abspath(__file__)), "c18_facts.json")
 SIGV = [0x0D, 0x0A, 0x0D, 0x0A, 0x00, 0x0D, 0x0A, 0x51, 0x55, 0x49, 0x54, 0x0A]
@@ -55,6 +59,27 @@ def _arrays(src, table):
             vals = [rsread.evalc(x, table) for x in items]
             if None not in vals:
                 out.append(vals)
+    return out
+
+
+def _bytestr(text):
+    """the bytes of a Rust byte-string literal's contents, or None"""
+    out, i = [], 0
+    esc = {"n": 10, "r": 13, "t": 9, "0": 0, "\\": 92, '"': 34, "'": 39}
+    while i < len(text):
+        c = text[i]
+        if c != "\\":
+            out.append(ord(c)); i += 1
+        elif text[i + 1:i + 2] == "x":
+            try:
+                out.append(int(text[i + 2:i + 4], 16))
+            except ValueError:
+                return None
+            i += 4
+        elif text[i + 1:i + 2] in esc:
+            out.append(esc[text[i + 1]]); i += 2
+        else:
+            return None
     return out
 
 
@@ -91,7 +116,10 @@ def read_facts(fails):
             if mm:
                 op = mm.group(1) or {"==": "==", "<=": ">=", "<": ">"}[mm.group(4)]
                 rhs = mm.group(2) or mm.group(3)
-                val = f[key] if rhs in ("total_len", "window", "limit") else rsread.evalc(rhs, table)
+                if re.search(r"let\s+%s\s*(?::\s*\w+\s*)?=\s*match\s+self\s*\.\s*header_len\s*\{" % re.escape(rhs), rb):
+                    val = f[key]            # the window of the current stage, bound from the table read above
+                else:
+                    val = rsread.evalc(rhs, table)
                 if val is None:
                     unread = True
                 elif val == f[key] and op in ("==", ">="):
@@ -103,14 +131,28 @@ def read_facts(fails):
             fails.append("unreadable: expect.rs: where the %s stage advances/closes (model: exactly at index == %d)%s" % (st, f[key], " [unresolved name]" if unread else ""))
     pa = rsread.clean(_src("lib/src/protocol/proxy_protocol/parser.rs"))
     he = rsread.clean(_src("lib/src/protocol/proxy_protocol/header.rs"))
-    for name, src in (("parser.rs", pa), ("header.rs", he)):
-        arrs = [a for a in _arrays(src, rsread.consts(src)) if len(a) == 12]
-        if SIGV in arrs:
-            continue
-        if arrs:
-            fails.append("%s: the 12-byte v2 signature is %s" % (name, arrs[0]))
-        elif not re.search(r"PROTOCOL_SIGNATURE_V2|SIGNATURE", src):
+    for name, src, raw in (("parser.rs", pa, _src("lib/src/protocol/proxy_protocol/parser.rs")), ("header.rs", he, _src("lib/src/protocol/proxy_protocol/header.rs"))):
+        # the constant that holds the signature, as an array or as a byte string; else any 12-byte array that is the signature
+        got = None
+        cm = re.search(r"\b(?:const|static)\s+\w*SIG\w*\s*:\s*(?:&\s*(?:'static\s+)?)?\[\s*u8\s*(?:;\s*\w+\s*)?\]\s*=\s*([^;]+);", raw)
+        if cm:
+            init = cm.group(1).strip()
+            bm = re.fullmatch(r'[&*]?\s*b"((?:[^"\\]|\\.)*)"', init)
+            if bm:
+                got = _bytestr(bm.group(1))
+            else:
+                am = _arrays(rsread.clean(init), rsread.consts(src))
+                got = am[0] if am else None
+        if got is None:
+            arrs = [a for a in _arrays(src.split("#[cfg(test)]")[0], rsread.consts(src)) if len(a) == 12]
+            if SIGV in arrs:
+                got = SIGV
+            elif arrs:
+                got = arrs[0]
+        if got is None:
             fails.append("unreadable: %s: the 12-byte v2 signature" % name)
+        elif got != SIGV:
+            fails.append("%s: the 12-byte v2 signature is %s" % (name, got))
     # family byte and block length per address kind (values of the match arms, whatever their spelling)
     ht = rsread.consts(he)
     for fn, want, what in (("get_family", {"Ipv4Addr": 0x11, "Ipv6Addr": 0x21, "UnixAddr": 0x31, "AfUnspec": 0}, "family byte"),
@@ -134,30 +176,37 @@ def read_facts(fails):
     tcp = rsread.clean(_src("lib/src/tcp.rs"))
     body = rsread.body(tcp, "ready_inner")
     if body is None:
-        fails.append("unreadable: tcp.rs: fn ready_inner not found")
+        fails.append("tcp.rs: fn ready_inner not found (the driver replicates its loop: the order of the handlers is only tied here)")
     else:
         calls = [(1, r"self\s*\.\s*front_hup\s*\(\)"), (2, r"self\s*\.\s*readable\s*\(\)"), (3, r"self\s*\.\s*back_writable\s*\(\)"),
                  (4, r"self\s*\.\s*back_readable\s*\(\)"), (5, r"self\s*\.\s*writable\s*\(\)"), (6, r"self\s*\.\s*back_hup\s*\(\)")]
+        # a private helper of the session that makes some of these calls is read in place of its call
+        handlers = ("front_hup", "readable", "back_writable", "back_readable", "writable", "back_hup")
+        for hm in list(re.finditer(r"self\s*\.\s*(\w+)\s*\([^()]*\)", body))[::-1]:
+            if hm.group(1) in handlers or hm.group(1) == "ready_inner":
+                continue
+            hb = rsread.body(tcp, hm.group(1))
+            if hb is not None and any(re.search(c[1], hb) for c in calls):
+                body = body[:hm.start()] + "{" + hb + "}" + body[hm.end():]
         seq = rsread.all_positions(body, calls)
         # first occurrence of each handler, in order; back_hup may occur again (the error arm)
         first = []
         for c in seq:
             if c not in first:
                 first.append(c)
-        if sorted(first) != [1, 2, 3, 4, 5, 6]:
-            fails.append("unreadable: tcp.rs: ready_inner: the calls of the six handlers (found %s)" % first)
-        elif first != [1, 2, 3, 4, 5, 6]:
-            names = {1: "front_hup", 2: "readable", 3: "back_writable", 4: "back_readable", 5: "writable", 6: "back_hup"}
-            fails.append("tcp.rs: ready_inner calls the handlers in the order %s (model: front_hup, readable, back_writable, back_readable, writable, back_hup)" % [names[c] for c in first])
+        names = {1: "front_hup", 2: "readable", 3: "back_writable", 4: "back_readable", 5: "writable", 6: "back_hup"}
+        # the driver replicates this loop (TcpSession::new is private), so nothing observes the order: every difference is hard
+        if first != [1, 2, 3, 4, 5, 6]:
+            fails.append("tcp.rs: ready_inner calls the handlers in the order %s (model and driver: front_hup, readable, back_writable, back_readable, writable, back_hup)" % [names[c] for c in first])
         else:
             # each handler is guarded by the readiness bit of its side
             for code, bit in ((2, "is_readable"), (3, "is_writable"), (4, "is_readable"), (5, "is_writable"), (6, "is_hup")):
                 k = re.search(calls[code - 1][1], body).start()
                 if bit not in body[max(0, k - 400):k]:
-                    fails.append("unreadable: tcp.rs: ready_inner: the readiness test (%s) guarding handler %d" % (bit, code))
+                    fails.append("tcp.rs: ready_inner: handler %s is no longer guarded by %s() of its side" % (names[code], bit))
             # the error arms: frontend error closes; backend error closes when back_hup says so
             if len(re.findall(r"\.\s*is_error\s*\(\)", body)) < 2:
-                fails.append("unreadable: tcp.rs: ready_inner: the two ERROR arms")
+                fails.append("tcp.rs: ready_inner: the two ERROR arms (frontend error closes, backend error asks back_hup) are not both there")
         # after front_hup: only a non-Continue result returns, Continue falls through to the handlers
         k = re.search(calls[0][1], body)
         seg = body[max(0, k.start() - 60):k.start() + 600] if k else ""
@@ -571,6 +620,7 @@ def extra_stage(tier, rng, work):
 
     outs, problems = run(cases, "bb")
     fails, viols, inconclusive, done = list(problems), [], [], 0
+    reproduced = 0
     known = vlib.load_known()
     for c in cases:
         o = outs.get(c.id)
@@ -583,13 +633,19 @@ def extra_stage(tier, rng, work):
             continue
         done += 1
         fresh = [v for v in vs if not vlib.match_known(ID, v[0], v[1], known)]
-        if fresh:
+        if fresh and reproduced >= 2:
+            # two scenarios already reproduced their findings: the run fails whatever the others do, no more re-runs
+            for v in fresh:
+                viols.append((c, v[0], v[1]))
+        elif fresh:
             # reproduce twice more
             again = []
             for k in (1, 2):
                 o2, _ = run([c], "bb_retry%d" % k)
                 oo = o2.get(c.id) or dict(viol=[], panic=None)
                 again.append(set(x[0] for x in oo["viol"]) | ({"panic"} if oo.get("panic") else set()))
+            if any(all(v[0] in a for a in again) for v in fresh):
+                reproduced += 1
             for v in fresh:
                 if all(v[0] in a for a in again):
                     viols.append((c, v[0], v[1]))
